@@ -14,6 +14,10 @@ CHECKS = {
     "C09": {"harnesses": [("harness.sessions", "C09_SessionRules")]},
     "C10": {"harnesses": [("harness.runs", "C10_RunnerBasics")]},
     "C11": {"harnesses": [("harness.runs", "C11_RunnerBasics")]},
+    "C13": {"harnesses": [("harness.events", "C13_HookDispatch"), ("harness.events", "C13_HookValidation")]},
+    "C14": {"harnesses": [("harness.events", "C14_FundamentalShock"), ("harness.events", "C14_MistakeShock")]},
+    "C15": {"harnesses": [("harness.events", "C15_LimitRuleFn"), ("harness.events", "C15_LimitRuleRun")]},
+    "C16": {"harnesses": [("harness.events", "C16_HaltTiming")]},
     "C08": {"harnesses": [("harness.ophistory", "C08_OpHistory")]},
     "C03": {"harnesses": [("harness.matching", "C03_ClearingRound"), ("harness.matching", "C03_Continuous")]},
 }
@@ -33,10 +37,6 @@ NOT_APPLICABLE = {
     "C06": "harness not built yet in this revision (planned: RN clock/series monitor)",
     "C07": "harness not built yet in this revision (planned: two-run comparison under nondeterministic global sources)",
     "C12": "harness not built yet in this revision",
-    "C13": "harness not built yet in this revision",
-    "C14": "harness not built yet in this revision",
-    "C15": "harness not built yet in this revision",
-    "C16": "harness not built yet in this revision",
     "C17": "harness not built yet in this revision",
     "C18": "harness not built yet in this revision",
     "C19": "harness not built yet in this revision",
